@@ -258,6 +258,31 @@ def _derived_with(e, params, tainted):
     return False
 
 
+def to_json_schema_returns_state():
+    """does some field class's `to_json_schema` return an attribute of the field / its class (or a module-level
+    name) instead of building the literal?  -> the returned schema would contain that shared object"""
+    found = None
+    base = os.path.join(repo_root(), "typedpy")
+    for sub in ("extfields", "fields"):
+        d = os.path.join(base, sub)
+        for name in sorted(os.listdir(d)):
+            if not name.endswith(".py"):
+                continue
+            tree = ast.parse(open(os.path.join(d, name), encoding="utf-8").read())
+            module_names = {t.id for n in tree.body if isinstance(n, ast.Assign) for t in n.targets
+                            if isinstance(t, ast.Name) and isinstance(n.value, (ast.Dict, ast.List))}
+            for cls in [n for n in tree.body if isinstance(n, ast.ClassDef)]:
+                for fn in [m for m in cls.body if isinstance(m, ast.FunctionDef) and m.name == "to_json_schema"]:
+                    found = found or False
+                    for r in [n for n in ast.walk(fn) if isinstance(n, ast.Return) and n.value is not None]:
+                        v = r.value
+                        if isinstance(v, ast.Attribute) and isinstance(v.value, ast.Name) and v.value.id in ("self", "cls", cls.name):
+                            found = True
+                        if isinstance(v, ast.Name) and v.id in module_names:
+                            found = True
+    return found
+
+
 def wrapper_ctor_copies():
     """{kind: True/False}: the typed wrapper's constructor copies the incoming collection (`super().__init__(x)`)"""
     tree = _parse("fields/collections_impl.py")
@@ -294,6 +319,9 @@ def ast_readings():
         mut = mapper_arg_mutates(fname)
         if mut is not None:
             out[(op, "mapping", "any")] = "mutates" if mut else "keeps"
+    st = to_json_schema_returns_state()
+    if st is not None:
+        out[("toSchema", "fieldState", "any")] = "alias" if st else "deep"
     for kind, copies in wrapper_ctor_copies().items():
         for op in ("construct", "setattr"):
             for cat in ("number", "string", "scalar", "coll", "inline", "wrap", "untyped", "any", "struct"):
@@ -317,7 +345,8 @@ def probe_row(op, kind, cat, impl, node_path):
     paths = [list(p) for p in impl.get("shared_paths", [])]
     node_shared = node_path in paths
     below = _descendant_shared(paths, node_path)
-    leaf_site = kind in ("any", "document", "mapping", "names", "required", "enumValues", "default", "schema")
+    leaf_site = kind in ("any", "document", "mapping", "names", "required", "enumValues", "default", "schema",
+                         "fieldState")
     is_input = op in ("construct", "setattr", "deserialize", "derive")
     aliased = node_shared or (leaf_site and kind not in ("any",) and below)
     if aliased:
@@ -335,7 +364,7 @@ def mode_of_row(op, kind, row):
     if row["returns"] == "raises":
         return "error"
     is_input = op in ("construct", "setattr", "deserialize", "derive")
-    leaf = kind in ("any", "document", "mapping", "names", "required", "enumValues", "default", "schema")
+    leaf = kind in ("any", "document", "mapping", "names", "required", "enumValues", "default", "schema", "fieldState")
     if is_input:
         return "alias" if row["retainsArg"] else "shallow" if row["shallow"] else "deep" if leaf or row.get("deep") else "rebuild"
     if row["returns"] in ("fresh", "scalar"):
@@ -416,24 +445,26 @@ def probe_all():
     # class- and document-level operations
     for c in S.directed_cases():
         op = c["op"]
-        if op == "toSchema" and c["cls"]["name"] == "Sch":
+        if op == "toSchema" and c.get("cls", {}).get("name") == "Sch":
+            # worst case over every schema witness: plain classes, defaulted fields, the ext field kinds with
+            # plain / callable defaults
+            impls = [S.run_impl(c2) for c2 in S.directed_cases() if c2["op"] == "toSchema"]
+            impls = [i for i in impls if "unbuildable" not in i]
             impl = S.run_impl(c)
-            # a second witness with a defaulted field (the `_required` list is rewritten for those)
-            impl2 = [S.run_impl(c2) for c2 in S.directed_cases()
-                     if c2["op"] == "toSchema" and c2["cls"]["name"] == "Dflt"][0]
-            mutated = not (impl.get("args_same", True) and impl2.get("args_same", True))
+            mutated = any(not i.get("args_same", True) for i in impls)
             r0 = probe_row(op, "root", "none", impl, [])
             r0["argMutated"] = mutated
             rows.append((op, "root", "none", r0))
-            for site in ("required", "enumValues", "default"):
+            for site in ("required", "enumValues", "default", "fieldState"):
                 r = probe_row(op, site, "any", impl, [site])
-                r2 = probe_row(op, site, "any", impl2, [site])
-                if r2["returns"] != "fresh":
-                    r["returns"] = r2["returns"]
+                for i2 in impls:
+                    r2 = probe_row(op, site, "any", i2, [site])
+                    if r2["returns"] not in ("fresh", "raises"):
+                        r["returns"] = r2["returns"]
                 r["argMutated"] = mutated and site == "required"
                 rows.append((op, site, "any", r))
             rows.append((op, "any", "none", probe_row(op, "any", "none", impl, ["__none__"])))
-        if op == "schemaToCode" and c["cls"]["name"] == "Dflt":
+        if op == "schemaToCode" and c.get("cls", {}).get("name") == "Dflt":
             impl = S.run_impl(c)
             r = probe_row(op, "schema", "any", impl, ["schema"])
             r["returns"] = "scalar" if impl.get("ok") else "raises"
@@ -455,7 +486,7 @@ def probe_all():
     for c in S.directed_cases():
         if c["op"] == "derive":
             impl = S.run_impl(c)
-            for site in ("names", "required", "mapping", "enumValues", "default"):
+            for site in ("names", "required", "mapping", "enumValues", "default", "fieldState"):
                 node = ["mapper"] if site == "mapping" else [site]
                 r = probe_row("derive", site, "any", impl, node)
                 old = derive.get(site)
@@ -515,8 +546,35 @@ def render(rows, readings, namespace="Typedpy.Generated"):
     return "\n".join(lines)
 
 
+def probe_all_isolated():
+    """run the witness probe in a forked child: the probe pokes returned objects on purpose, and when the code
+    under test shares process-wide state (a class-level schema dict, say) those pokes would otherwise saturate
+    that state in the checking process and hide the very defect from the cases that follow"""
+    import json
+    r, w = os.pipe()
+    pid = os.fork()
+    if pid == 0:
+        code = 1
+        try:
+            os.close(r)
+            rows = [[op, kind, cat, {k: v for k, v in row.items() if not k.startswith("_")}]
+                    for op, kind, cat, row in probe_all()]
+            with os.fdopen(w, "w") as f:
+                json.dump(rows, f)
+            code = 0
+        finally:
+            os._exit(code)
+    os.close(w)
+    with os.fdopen(r) as f:
+        data = f.read()
+    _, status = os.waitpid(pid, 0)
+    if status != 0 or not data:
+        raise RuntimeError("alias witness probe failed in the child process")
+    return [(op, kind, cat, row) for op, kind, cat, row in json.loads(data)]
+
+
 def generate():
-    rows = probe_all()
+    rows = probe_all_isolated()
     readings = ast_readings()
     text = render(rows, readings)
     changed = write_if_changed("Aliasing.lean", text)
@@ -524,7 +582,7 @@ def generate():
 
 
 def update_pinned():
-    rows = probe_all()
+    rows = probe_all_isolated()
     readings = ast_readings()
     path = os.path.join(os.path.dirname(os.path.dirname(os.path.abspath(__file__))), "lean", "TypedpyModel", "Pinned",
                         "Aliasing.lean")
